@@ -177,12 +177,37 @@ def binary_cases(draw, tier):
         d1 = draw(G.dfa_specs(min_states=lo, max_states=4, sigma=S, pool=G.POOL[:10]))
         d2 = draw(G.dfa_specs(min_states=lo, max_states=4, sigma=S, pool=G.POOL[:10] if overlap else G.POOL[10:22]))
     same = draw(st.integers(0, 11)) == 0
+    if draw(st.integers(0, 2)) == 0:
+        # equal alphabets (and state sets) that are different set objects with different histories: they may enumerate their elements in different orders
+        d1 = dict(d1, set_hist=draw(st.integers(0, 3)))
+        d2 = dict(d2, set_hist=draw(st.integers(0, 3)))
     return {"d1": d1, "d2": d1 if same else d2, "same_object": same, "op": draw(st.sampled_from(["union", "intersection", "symmetric_difference"])), "logging": draw(st.integers(0, 5)) == 0}
 
 
 @st.composite
 def unary_cases(draw, tier):
-    return {"dfa": draw(G.routes_dfa_specs()) if draw(st.integers(0, 7)) == 0 else draw(G.dfa_specs(max_states=5, max_sigma=2, odd=["_", " "])),      # not 'ε': dfa_reverse / dfa_no_prefix use it as the epsilon of the NFA they build (asserted by the NFA class)
+    k = draw(st.integers(0, 8))
+    if k == 8:
+        return {"dfa": draw(G.late_exit_cycle_dfa_specs()), "op": draw(st.sampled_from(["no_extend", "no_extend", "no_prefix", "complement", "reverse", "remove_unreachable"]))}
+    if k in (1, 2):
+        # 6-12 states: cycles of non-accepting states with a late exit, long distinguishing words (recursive / memoised searches differ from fixpoints only there)
+        big = draw(G.dfa_specs(min_states=6, max_states=12, max_sigma=2))
+        if draw(st.booleans()):
+            # few accepting states: most states reach acceptance only through long paths and cycles of non-accepting states
+            Q = big["Q"]
+            big = dict(big, F=sorted(set([Q[draw(st.integers(0, len(Q) - 1))]] + ([big["q0"]] if draw(st.booleans()) else []) + ([Q[draw(st.integers(0, len(Q) - 1))]] if draw(st.booleans()) else []))))
+        if draw(st.booleans()):
+            # funnel states: all symbols lead to the same successor (chains and cycles with a single way on; a search that closes a cycle there has no alternative)
+            tgt = {}
+            funnel = set(q for q in big["Q"] if draw(st.integers(0, 2)) == 0)
+            d = []
+            for p, a, q in big["d"]:
+                if p in funnel:
+                    q = tgt.setdefault(p, q)
+                d.append([p, a, q])
+            big = dict(big, d=d)
+        return {"dfa": big, "op": draw(st.sampled_from(["no_extend", "no_prefix", "complement", "reverse", "no_extend", "remove_unreachable"]))}
+    return {"dfa": draw(G.routes_dfa_specs()) if k == 0 else draw(G.dfa_specs(max_states=5, max_sigma=2, odd=["_", " "])),      # not 'ε': dfa_reverse / dfa_no_prefix use it as the epsilon of the NFA they build (asserted by the NFA class)
             "op": draw(st.sampled_from(["complement", "reverse", "no_prefix", "no_extend", "remove_unreachable"]))}
 
 
@@ -245,4 +270,4 @@ KNOWN_PREDICATES = {}
 
 # coverage-guided second driver (atheris / libFuzzer through Hypothesis' fuzz_one_input) for the core clauses: (clause, quick runs, thorough runs)
 from harness.covfuzz import cov_clauses  # noqa: E402
-CLAUSES += cov_clauses('C14', CLAUSES, [('binary', 3000, 60000), ('unary', 3000, 60000), ('lang_helpers', 2000, 40000)])
+CLAUSES += cov_clauses('C14', CLAUSES, [('binary', 3000, 20000), ('unary', 3000, 20000), ('lang_helpers', 2000, 13333)])
